@@ -737,6 +737,10 @@ class Exec:
         return out[0] if len(out) == 1 else None
 
     def call_closure(self, clo, args):
+        if isinstance(clo, FnItem):           # a function (path or trait method) used where a closure is expected
+            return self.do_call(clo.name, list(args))
+        if hasattr(clo, "call") and not isinstance(clo, Closure):
+            return clo.call(self, list(args))
         f = self.closure_map.get(clo.name)
         if f is None:
             raise Unsupported("closure body not found: " + clo.name)
